@@ -470,8 +470,20 @@ def r_squash(ctx):
                         if M.cmp_matches(a, lambda t: M.is_call(t, 'len') and self_field(t[2][0], 'layers'), lambda t: M.is_const(t, 1), '<='):
                             return True
                 return False
-            cut = _cut_edges(b, exempt)
-            r = b.reach(arm, cut_edges=cut, avoid=[b.term_point(bb) for (bb, t) in calls])
+            # from the ENTRY (an exemption tested before the dispatch on the compilation type counts too): paths that are neither exempt
+            # nor in another compilation type must reach the squash
+            def other_type(atoms, lit, variant=variant):
+                for a in atoms:
+                    if a[0] == 'in' and comp_type(a[1]) and variant not in a[2]:
+                        return True
+                    if a[0] == 'cmp' and a[3] in (frozenset('='), frozenset('<>')):
+                        for (x, y) in ((a[1], a[2]), (a[2], a[1])):
+                            if comp_type(x) and isinstance(y, tuple) and y and y[0] == 'aggr':
+                                if (a[3] == frozenset('=')) != (y[2] == variant):
+                                    return True
+                return False
+            cut = _cut_edges(b, exempt) | _cut_edges(b, other_type)
+            r = b.reach([(0, 0)], cut_edges=cut, avoid=[b.term_point(bb) for (bb, t) in calls])
             ctx.check(bool(arm) and not any(p in r for p in ret_points(b)), 'R13.b', '%s/%s-is-mandatory' % (tag, kind), b, b.loc(calls[0][0]),
                       'in a %s compilation a layer escapes the squash only when len <= max_width%s' % (variant, ' or fewer than two layers exist' if kind == 'relax' else ''),
                       'in a %s compilation a layer with len > max_width can be left unsquashed for a reason other than %s: layers wider than max_width are expanded' % (variant, '"fewer than two layers exist"' if kind == 'relax' else 'none'))
@@ -578,16 +590,20 @@ def _sort_rule(ctx, tag, b):
     if not ctx.floor('R07.4', '%s/%s-sort' % (tag, b.fn_name), b, len(so), 1, 'sort of the layer'):
         return
     cl = b.origin.operand(so[0][1]['args'][1], b.term_point(so[0][0]))
-    rt = _closure_ret(ctx.F, cl)
+    # comparator applied to (x, y): a closure or a function item; result = lex(cmp(x.value_top, y.value_top), ranking(..)).reverse()
+    X, Y = ('cmparg', 0), ('cmparg', 1)
+    rt = b.origin.apply_fn(cl, (X, Y))
     good = False
     if rt is not None and M.is_call(rt, 'reverse'):
         inner = rt[2][0]
-        if M.is_call(inner, 'then_with') and M.is_call(inner[2][0], 'Ord::cmp'):
-            c = inner[2][0]
-            good = node_field(c[2][0], 'value_top') is not None and node_field(c[2][1], 'value_top') is not None and \
-                M.is_param(node_field(c[2][0], 'value_top')[1], index=1) and M.is_param(node_field(c[2][1], 'value_top')[1], index=2)
-            rk = _closure_ret(ctx.F, inner[2][1])
-            good = good and rk is not None and M.is_call(rk, 'StateRanking::compare')
+        if isinstance(inner, tuple) and inner and inner[0] == 'lex' and len(inner[1]) == 2 and M.is_call(inner[1][0], 'Ord::cmp'):
+            c = inner[1][0]
+            fa, fb = node_field(c[2][0], 'value_top'), node_field(c[2][1], 'value_top')
+            good = fa is not None and fb is not None and M.contains(fa, lambda x: x == X) and M.contains(fb, lambda x: x == Y) and \
+                not M.contains(fa, lambda x: x == Y) and not M.contains(fb, lambda x: x == X)
+            rk = inner[1][1]
+            good = good and M.is_call(rk, 'StateRanking::compare') and M.contains(rk[2][1], lambda x: x == X) and M.contains(rk[2][2], lambda x: x == Y) and \
+                not M.contains(rk[2][1], lambda x: x == Y) and not M.contains(rk[2][2], lambda x: x == X)
     ctx.check(good, 'R07.4', '%s/%s-sort-order' % (tag, b.fn_name), b, b.loc(so[0][0]), 'the layer is sorted by (value_top, ranking) descending: the best nodes are kept',
               'the squash order is not value_top.cmp(..).then_with(ranking).reverse() on (a, b): the wrong nodes are kept')
 
@@ -618,19 +634,32 @@ def r_relax(ctx):
             rt = _closure_ret(ctx.F, mapc[0])
             good = rt is not None and node_field(rt, 'state') is not None
         ctx.check(good, 'R12.e', tag + '/merge-over-merged-slice', b, b.loc(mg[0][0]), 'merge() receives the states of exactly the nodes beyond max_width - 1', 'merge() iterates %s' % M.show(it)[:200])
-        # merged node id
-        mid_calls = b.calls_to('unwrap_or_else', 'unwrap_or')
-        mid = None
-        for (bb, t) in mid_calls:
-            tt = b.origin.call(t, b.term_point(bb))
-            if M.contains(tt[2][0], lambda x: M.is_call(x, 'find', 'position')) and M.contains(tt[2][0], lambda x: x == keep_t):
-                mid = tt
-        if mid is None:
-            ctx.bad('R06.1', tag + '/merged-id', b, b.loc(0), 'cannot identify the merged node id (recycled.unwrap_or_else(create))')
+        # merged node id: the node flagged relaxed; in normal form  ite(recycled is Some ? recycled : freshly pushed node)  whatever the
+        # spelling (unwrap_or_else(create) / match / if let); `recycled` is a search over the kept slice
+        midx = None
+        srs = []
+        def is_mid(ix):
+            f = opt_fold(ix) if ix is not None else None
+            return f is not None and M.contains(f[0], lambda x: M.is_call(x, 'find', 'position')) and M.contains(f[0], lambda x: x == keep_t)
+        for (bb, t) in b.calls_to('set_relaxed'):
+            a = [b.origin.operand(x, b.term_point(bb)) for x in t['args']]
+            ix = node_field(a[0], 'flags')
+            if is_mid(ix) and M.is_const(a[1], True):
+                midx = ix
+                srs.append(b.term_point(bb))
+        if midx is None:
+            # not flagged (reported below): fall back on the target of the redirected arcs
+            for s_ in append_sites(ctx, tag):
+                if s_[0] in unit and is_mid(id0(dict(s_[2][3]).get('to'))):
+                    midx = id0(dict(s_[2][3])['to'])
+        if midx is None:
+            ctx.bad('R06.1', tag + '/merged-id', b, b.loc(0), 'cannot identify the merged node (the node flagged relaxed, = the recycled kept node if any, else a fresh node)')
             continue
-        midx = id0(mid)
+        (rec_t, some_v, none_v) = opt_fold(midx)
+        ctx.check(some_v == id0(opt_payload(rec_t)) and M.is_call(none_v, 'len') and self_field(none_v[2][0], 'nodes'), 'R06.1', tag + '/merged-id', b, b.loc(mg[0][0]),
+                  'the merged node is the recycled kept node when there is one, else the node about to be pushed (id = nodes.len())', 'the merged node id is %s' % M.show(midx)[:200])
         # the recycled node has the merged state; the created node carries it and is flagged relaxed
-        findc = [x for x in M.walk(mid[2][0]) if isinstance(x, tuple) and x and x[0] == 'closure']
+        findc = [x for x in M.walk(rec_t) if isinstance(x, tuple) and x and x[0] == 'closure']
         good = False
         if findc and findc[0][1] in ctx.F.bodies:
             fb_ = ctx.F.bodies[findc[0][1]]
@@ -639,25 +668,34 @@ def r_relax(ctx):
                 if node_field(a[0], 'state') is not None and a[1] == mgt or (node_field(a[1], 'state') is not None and a[0] == mgt):
                     good = True
         ctx.check(good, 'R06.1', tag + '/recycled-has-merged-state', b, b.loc(mg[0][0]), 'a kept node is re-used as merged node only if its state equals the merged state', 'the recycled node is not selected by state == merged')
-        crt = mid[2][1] if len(mid[2]) > 1 else None
-        good = False
-        if isinstance(crt, tuple) and crt[0] == 'closure' and crt[1] in ctx.F.bodies:
-            cb = ctx.F.bodies[crt[1]]
+        # creation: ONE push onto self.nodes in the unit, of (state = merged, value MIN, no best edge, relaxed flags), executed only when nothing is recycled
+        created = []
+        for cb in unit:
             for (bb, t) in cb.calls_to('push'):
                 a = [cb.origin.operand(x, cb.term_point(bb)) for x in t['args']]
                 if self_field(a[0], 'nodes') and isinstance(a[1], tuple) and a[1][0] == 'aggr':
-                    f = dict(a[1][3])
-                    rt = _ret_term(cb)
-                    good = f.get('state') == mgt and M.is_call(f.get('flags'), 'new_relaxed') and M.is_const(f.get('value_top')) and (f['value_top'][2] or '').endswith('MIN') \
-                        and isinstance(f.get('best'), tuple) and f['best'][2] == 'None' and M.is_call(id0(rt), 'len') and self_field(id0(rt)[2][0], 'nodes')
-                    dpt = f.get('depth')
-                    ctx.check(node_field(dpt, 'depth') is not None and M.contains(dpt, lambda x: x == merge_t), 'R12.f', tag + '/merged-depth', cb, cb.loc(bb),
-                              'the merged node takes the depth of a merged member', 'merged node depth is %s' % M.show(dpt))
+                    created.append((cb, bb, dict(a[1][3])))
+        good = len(created) == 1
+        if good:
+            (cb, bb, f) = created[0]
+            good = f.get('state') == mgt and M.is_call(f.get('flags'), 'new_relaxed') and is_min_const(f.get('value_top')) \
+                and isinstance(f.get('best'), tuple) and f['best'][2] == 'None'
+            dpt = f.get('depth')
+            ctx.check(node_field(dpt, 'depth') is not None and M.contains(dpt, lambda x: x == merge_t), 'R12.f', tag + '/merged-depth', cb, cb.loc(bb),
+                      'the merged node takes the depth of a merged member', 'merged node depth is %s' % M.show(dpt))
+            if cb is b:
+                only_none, _, _ = M.guarded(b, [b.term_point(bb)], lambda atoms, lit: any(opt_is(a_, lambda x: x == rec_t, 'None') for a_ in atoms))
+            else:
+                # lazily evaluated alternative of an Option combinator applied to `recycled`
+                only_none = any(M.contains(b.origin.operand(x, b.term_point(b2)), lambda y: isinstance(y, tuple) and y and y[0] == 'closure' and y[1] == cb.name) and
+                                b.origin.operand(t2['args'][0], b.term_point(b2)) == rec_t
+                                for (b2, t2) in b.calls_to('unwrap_or_else', 'map_or_else', 'or_else', 'ok_or_else') for x in t2['args'][1:])
+            ctx.check(only_none, 'R06.1', tag + '/created-only-when-not-recycled', cb, cb.loc(bb), 'a fresh merged node is pushed only when no kept node is recycled',
+                      'a fresh merged node is pushed even when a kept node is recycled as the merged node: an arc-less phantom node with the merged state stays in the diagram')
         ctx.check(good, 'R06.1', tag + '/created-merged-node', b, b.loc(mg[0][0]), 'a fresh merged node has the merged state, value MIN, no best edge, relaxed flags, and its id is nodes.len() before the push',
                   'the freshly created merged node is not (state = merged, value_top = MIN, best = None, flags = new_relaxed)')
         # set_relaxed(true) on the merged node on every path
-        sr = [b.term_point(bb) for (bb, t) in b.calls_to('set_relaxed')
-              if node_field(b.origin.operand(t['args'][0], b.term_point(bb)), 'flags') == midx and M.is_const(b.origin.operand(t['args'][1], b.term_point(bb)), True)]
+        sr = srs
         r = b.reach([(0, 0)], avoid=sr)
         ctx.check(bool(sr) and not any(p in r for p in ret_points(b)), 'R06.1', tag + '/merged-flagged-relaxed', b, b.loc(sr[0][0]) if sr else b.loc(mg[0][0]),
                   'the merged node (also a re-used kept node) is flagged relaxed on every path', 'the merged node is not flagged relaxed on every path: a re-used kept node stays "exact" although it now stands for merged states')
@@ -725,11 +763,11 @@ def r_relax(ctx):
         if ctx.floor('R06.1', tag + '/redirect-edge', rc, len(sites), 1, 'edge append in the redirect closure'):
             e = dict(sites[0][2][3])
             good = M.is_field(e['from'], 'from', 'Edge') and edge_p(e['from'][1]) and M.is_field(e['decision'], 'decision', 'Edge') and edge_p(e['decision'][1]) \
-                and e['cost'] == rcost and e['to'] == mid
+                and e['cost'] == rcost and id0(e['to']) == midx
             ctx.check(good, 'R06.1', tag + '/redirected-edge', rc, rc.loc(sites[0][1]), 'the new arc keeps source and decision, points to the merged node and carries the cost returned by relax()',
                       'the redirected arc is %s (expected from/decision of the old arc, to = merged node, cost = relax(..))' % M.show(sites[0][2])[:260])
         # C13: symbolic length at exit
-        _relax_length(ctx, tag, b, mid)
+        _relax_length(ctx, tag, b, midx)
         _sort_rule(ctx, tag, b)
 
 
@@ -776,12 +814,40 @@ def _relax_length(ctx, tag, b, mid):
     # the merged node is the one pushed
     for (bb, t) in pu:
         v = b.origin.operand(t['args'][1], b.term_point(bb))
-        ctx.check(v == mid, 'R13.b', tag + '/relax-push-merged', b, b.loc(bb), 'the node appended to the layer is the merged node', 'the node appended after truncation is %s' % M.show(v)[:150])
+        ctx.check(id0(v) == mid, 'R13.b', tag + '/relax-push-merged', b, b.loc(bb), 'the node appended to the layer is the merged node', 'the node appended after truncation is %s' % M.show(v)[:150])
     # recycled path: keeps exactly the re-used node alive again
     sdf = [(bb, t) for (bb, t) in b.calls_to('set_deleted') if M.is_const(b.origin.operand(t['args'][1], b.term_point(bb)), False)]
+    is_w = lambda t: M.is_field(t, 'max_width', 'CompilationInput')
+    layer = lambda t: M.is_param(t, index=2)
+    trw = [b.term_point(bb) for (bb, t) in tr if layer(b.origin.operand(t['args'][0], b.term_point(bb))) and is_w(b.origin.operand(t['args'][1], b.term_point(bb)))]
     for (bb, t) in sdf:
         ok2, cut, bad = M.guarded(b, [b.term_point(bb)], lambda atoms, lit: any(opt_is(a, lambda x: M.contains(x, lambda y: M.is_call(y, 'find', 'position')), 'Some') for a in atoms))
         ctx.check(ok2, 'R13.b', tag + '/undelete-only-when-recycled', b, b.loc(bb), 'a deleted flag is cleared only on the recycled path', 'set_deleted(false) outside the recycled path')
+        # which node: the one that stays in the layer at position max_width - 1 (it was flagged deleted with the merged slice). Position
+        # max_width - 1 is stable through truncate(max_width); the LAST element is that node only once the truncation has happened
+        ix = node_field(b.origin.operand(t['args'][0], b.term_point(bb)), 'flags')
+        src = ix[1] if M.is_field(ix, '0') else ix
+        good = False
+        if isinstance(src, tuple) and src and src[0] == 'index' and layer(src[1]) and isinstance(src[2], tuple) and src[2][0] == 'sub' and is_w(src[2][1]) and M.is_const(src[2][2], 1):
+            good = True
+        else:
+            lasts = [x for x in M.walk(src) if M.is_call(x, 'last', 'last_mut') and layer(x[2][0]) and x[3]] if src is not None else []
+            if lasts:
+                lp = b.term_point(lasts[0][3][1])
+                # every path to the read of last() has truncated the layer to max_width
+                r0 = b.reach([(0, 0)], avoid=trw)
+                good = bool(trw) and lp not in r0
+        ctx.check(good, 'R07.6', tag + '/relax-undeletes-kept-node', b, b.loc(bb), 'the node whose deleted flag is cleared is the one that stays in the layer at position max_width - 1',
+                  'on the recycled path the node un-deleted (%s) is not the node kept at position max_width - 1 of the truncated layer: a node that stays in the layer and is expanded remains flagged deleted' % M.show(src)[:120])
+    # every path that keeps max_width nodes restores that flag
+    if trw:
+        sdp = [b.term_point(bb) for (bb, t) in sdf]
+        for tp in trw:
+            r1 = b.reach(b.after(tp), avoid=sdp)
+            r2 = b.reach([(0, 0)], avoid=sdp)
+            ctx.check(bool(sdp) and (not any(p in r1 for p in ret_points(b)) or tp not in r2), 'R07.6', tag + '/relax-kept-node-undeleted', b, b.loc(tp[0]),
+                      'when the layer keeps max_width nodes (a kept node was recycled) the node at position max_width - 1, flagged deleted with the merged slice, is un-deleted on every path',
+                      'a path keeps max_width nodes in the layer without clearing the deleted flag of the node at position max_width - 1')
 
 
 # ================================================================================================
@@ -863,7 +929,7 @@ def r_thresholds(ctx):
                     ok, cut, bad = M.guarded(body, [pt], lambda atoms, lit: any(M.cmp_matches(a, tot, bk, '<=') and _rel(a, tot) == frozenset('<=') for a in atoms))
                     ctx.check(ok, 'R09.5', tag + '/theta-rub-guard(E8)', body, body.loc(*pt), 'theta = best_known - rub exactly when value_top + rub <= best_known (the equality case must not fall through to the dangling-node case)',
                               'the rub-threshold case is not guarded by `value_top + rub <= best_known` (<= only)')
-                elif inner[0] == 'min' and len(inner[1]) == 2 and any(M.is_call(x, 'unwrap_or') and nf(x[2][0], 'theta') and (x[2][1][2] or '').endswith('MAX') for x in inner[1]) and \
+                elif inner[0] == 'min' and len(inner[1]) == 2 and any(opt_or(x, lambda o: nf(o, 'theta'), is_max_const) for x in inner[1]) and \
                         any(x[0] == 'sub' and _best_known_ok(body, x[1]) and nf(x[2], 'value_bot') for x in inner[1] if isinstance(x, tuple)):
                     form = 'min(theta, best_known - value_bot)'
                     tot = lambda t: isinstance(t, tuple) and t[0] == 'add' and len(t[1]) == 2 and any(nf(x, 'value_bot') for x in t[1]) and any(nf(x, 'value_top') for x in t[1])
@@ -884,7 +950,7 @@ def r_thresholds(ctx):
                               'theta = MAX is assigned to a node that is not (exact and still without threshold)')
                 elif inner[0] == 'min' and len(inner[1]) == 2 and body.kind == 'closure':
                     # propagation to a parent: min(parent.theta or MAX, child.theta - edge.cost)
-                    par = [x for x in inner[1] if M.is_call(x, 'unwrap_or') and nf(x[2][0], 'theta') and (x[2][1][2] or '').endswith('MAX')]
+                    par = [x for x in inner[1] if opt_or(x, lambda o: nf(o, 'theta'), is_max_const)]
                     chd = [x for x in inner[1] if isinstance(x, tuple) and x[0] == 'sub' and M.is_field(x[2], 'cost', 'Edge') and M.is_param(x[2][1]) and x[2][1][1] == body.name]
                     par_is_from = M.is_field(idx, '0') and M.is_field(idx[1], 'from', 'Edge') and M.is_param(idx[1][1]) and idx[1][1][1] == body.name
                     if par and chd and par_is_from:
@@ -914,25 +980,54 @@ def r_thresholds(ctx):
             ctx.check(M.is_field(a[0], 'cache', 'CompilationInput'), 'R09.2', tag + '/cache-receiver', mb, mb.loc(bb), 'the cache written is input.cache', 'cache receiver is %s' % M.show(a[0]))
 
 
+def _list_walk_child(parent, edge_term):
+    """edge_term = edges[(edgelists[LIST] as Cons).head] where LIST is a variable of `parent` that starts at nodes[CHILD].inbound and advances
+    by `tail`: returns (CHILD index term,) — the walk over the inbound arcs of CHILD — else None"""
+    heads = [x for x in M.walk(edge_term) if M.is_field(x, 'head') and isinstance(x[1], tuple) and x[1][0] == 'variant' and x[1][2] == 'Cons']
+    if not heads or not M.contains(edge_term, lambda x: self_field(x, 'edges')):
+        return None
+    lst = heads[0][1][1]
+    if not (isinstance(lst, tuple) and lst[0] == 'index' and self_field(lst[1], 'edgelists')):
+        return None
+    lv = lst[2][1] if M.is_field(lst[2], '0') else lst[2]
+    defs = var_def_terms(parent, lv)
+    starts = [node_field(d, 'inbound') for d in defs if node_field(d, 'inbound') is not None]
+    adv_ok = any(M.is_field(d, 'tail') for d in defs)
+    if len(starts) == 1 and adv_ok and len(defs) == 2:
+        return (starts[0],)
+    return None
+
+
+def arc_child(ctx, parent, body, t):
+    """if term `t` (seen in `body`, which is `parent` or a closure of it) denotes 'the current inbound arc of node CHILD' in a walk over CHILD's
+    inbound list, returns (CHILD index term, walk point in parent); else None. Two spellings of the walk are recognised:
+      closure form (foreach! macro): t is the parameter of closure `body`, which `parent` applies to edges[head] of every Cons cell;
+      inline form: t is edges[(edgelists[list] as Cons).head] itself, read in `parent`."""
+    if body is not parent and body.kind == 'closure' and M.is_param(t, index=1) and t[1] == body.name:
+        for (bb, tm) in parent.calls_to('call_mut', 'call', 'call_once'):
+            a = [parent.origin.operand(x, parent.term_point(bb)) for x in tm['args']]
+            if isinstance(a[0], tuple) and a[0][0] == 'closure' and a[0][1] == body.name:
+                c = _list_walk_child(parent, a[1])
+                return (c[0], parent.term_point(bb)) if c else None
+        return None
+    if body is parent and isinstance(t, tuple) and t and t[0] == 'index' and self_field(t[1], 'edges'):
+        c = _list_walk_child(parent, t)
+        if c:
+            # walk point: the block that tests the list cell for Cons
+            for bbk in parent.live_blocks():
+                if parent.term(bbk)['k'] == 'switch':
+                    for (tb, lab) in parent.succ(bbk):
+                        lit = M.edge_literal(parent, bbk, lab)
+                        if lit and lit[0] == 'in' and 'Cons' in lit[2] and M.contains(t, lambda x: x == lit[1]):
+                            return (c[0], parent.term_point(bbk))
+            return (c[0], None)
+    return None
+
+
 def _foreach_over(ctx, parent, closure, child_idx):
     """closure is applied (call_mut) in `parent` to edges[head] for cells of the inbound list of nodes[child_idx]"""
-    for (bb, t) in parent.calls_to('call_mut', 'call', 'call_once'):
-        a = [parent.origin.operand(x, parent.term_point(bb)) for x in t['args']]
-        if not (isinstance(a[0], tuple) and a[0][0] == 'closure' and a[0][1] == closure.name):
-            continue
-        heads = [x for x in M.walk(a[1]) if M.is_field(x, 'head') and isinstance(x[1], tuple) and x[1][0] == 'variant' and x[1][2] == 'Cons']
-        if not heads or not M.contains(a[1], lambda x: self_field(x, 'edges')):
-            return False
-        lst = heads[0][1][1]
-        if not (isinstance(lst, tuple) and lst[0] == 'index' and self_field(lst[1], 'edgelists')):
-            return False
-        lv = lst[2][1] if M.is_field(lst[2], '0') else lst[2]
-        defs = var_def_terms(parent, lv)
-        # the child index seen from the closure is expressed in the parent's terms (upvar resolution): compare structurally
-        starts_ok = any(node_field(d, 'inbound') is not None and (child_idx is None or node_field(d, 'inbound') == child_idx) for d in defs)
-        adv_ok = any(M.is_field(d, 'tail') for d in defs)
-        return starts_ok and adv_ok and len(defs) == 2
-    return False
+    r = arc_child(ctx, parent, closure, ('param', closure.name, 1, None))
+    return r is not None and (child_idx is None or r[0] == child_idx)
 
 
 # ------------------------------------------------------------------------------------------------
@@ -978,22 +1073,27 @@ def r_filters(ctx):
                       'get_threshold is asked for (%s, %s)' % (M.show(ga[1]), M.show(ga[2])))
             gtt = c.origin.call(gt[1], c.term_point(gt[0]))
             thv = lambda t: M.is_field(t, 'value', 'Threshold') and M.contains(t, lambda x: x == gtt)
-            falses = [(bb, i) for (bb, i, s) in c.assigns(lambda s: s['place']['l'] == 0 and not s['place']['p'] and s['rv']['k'] == 'use' and s['rv']['op'].get('const', {}).get('bool') is False)]
             val = lambda t: node_field(t, 'value_top') == idx
-            ok, cut, bad = M.guarded(c, falses, lambda atoms, lit: any(M.cmp_matches(a, val, thv, '<=') for a in atoms))
-            ctx.check(bool(falses) and ok, 'R09.4', tag + '/prune-polarity(E5)', c, c.loc(*falses[0]) if falses else c.loc(0), 'a node is pruned by the cache only on an edge asserting value_top <=|< threshold.value',
+            ok = returns_value_only_if(c, False, lambda atoms: any(M.cmp_matches(a, val, thv, '<=') for a in atoms))
+            ctx.check(ok, 'R09.4', tag + '/prune-polarity(E5)', c, c.loc(gt[0]), 'a node is pruned by the cache only on an edge asserting value_top <=|< threshold.value',
                       'the cache filter can prune a node without value_top <= theta being asserted (a strictly better path to the state is discarded)')
             eff = sorted(set([d[2] for (pt, d, v, s) in writes(c) if isinstance(d, tuple) and d[0] == 'field'] +
                              [(t_.get('callee') or '').split('::')[-1] for (b_, t_) in c.calls() if (t_.get('callee') or '').split('::')[-1].startswith('set_')]))
             ctx.check(eff == ['set_pruned_by_cache', 'theta'], 'R09.4', tag + '/filter-only-records-flag-and-theta', c, c.loc(gt[0]), 'the cache filter changes nothing on a node except the cache flag and theta',
                       'the cache filter has other effects on the node: %s' % eff)
-            # pruned => flag + theta
-            for p in falses:
-                r0 = c.reach([(0, 0)], avoid=[c.term_point(bb) for (bb, t) in c.calls_to('set_pruned_by_cache')])
-                tw = [pt for (pt, d, v, s) in writes(c) if node_field(d, 'theta') == idx and isinstance(v, tuple) and v[0] == 'aggr' and v[2] == 'Some' and thv(v[3][0][1])]
-                r1 = c.reach([(0, 0)], avoid=tw)
-                ctx.check(p not in r0 and p not in r1 and bool(tw), 'R09.4', tag + '/pruned-gets-flag-and-theta', c, c.loc(*p), 'a pruned node is flagged pruned-by-cache and inherits theta := threshold.value (needed for propagation)',
-                          'a node pruned by the cache does not get the cache flag and theta := threshold.value on every path')
+            # pruned => flag + theta, on every path that may answer false
+            flagp = set(bb for (bb, t) in c.calls_to('set_pruned_by_cache'))
+            tw = set(pt[0] for (pt, d, v, s) in writes(c) if node_field(d, 'theta') == idx and isinstance(v, tuple) and v[0] == 'aggr' and v[2] == 'Some' and thv(v[3][0][1]))
+            good = bool(flagp) and bool(tw)
+            npaths = 0
+            for (atoms_, rt_, blocks_, end_) in bool_fn_paths(c):
+                if M.is_const(rt_, True):
+                    continue
+                npaths += 1
+                if not (flagp & set(blocks_)) or not (tw & set(blocks_)):
+                    good = False
+            ctx.check(good and npaths > 0, 'R09.4', tag + '/pruned-gets-flag-and-theta', c, c.loc(gt[0]), 'a pruned node is flagged pruned-by-cache and inherits theta := threshold.value (needed for propagation)',
+                      'a node pruned by the cache does not get the cache flag and theta := threshold.value on every path')
         # R10.6 dominance filter
         db = ctx.body(adt, '_filter_with_dominance')
         so = db.calls_to('sort_unstable_by', 'sort_by')
@@ -1125,26 +1225,24 @@ def r_cutset(ctx):
             (c, bb, t) = pushes[0]
             v = c.origin.operand(t['args'][1], c.term_point(bb))
             par = id0(v)
-            good_v = M.is_field(v, 'from', 'Edge') and M.is_param(v[1])
+            walk = arc_child(ctx, fb, c, v[1]) if M.is_field(v, 'from', 'Edge') else None
+            good_v = walk is not None
             ok1, _, _ = M.guarded(c, [c.term_point(bb)], lambda atoms, lit: any(a[0] == 'T' and M.is_call(a[1], 'is_exact') and node_field(a[1][2][0], 'flags') == par for a in atoms))
             ok2, _, _ = M.guarded(c, [c.term_point(bb)], lambda atoms, lit: any(a[0] == 'F' and M.is_call(a[1], 'is_cutset') and node_field(a[1][2][0], 'flags') == par for a in atoms))
             ctx.check(good_v and ok1 and ok2, 'R08.2', tag + '/frontier-admission', c, c.loc(bb), 'a node enters the frontier cut-set only if it is the exact source of the arc and not yet a member',
                       'the frontier cut-set admits %s without asserting is_exact(parent) && !is_cutset(parent)' % M.show(v))
             sc = [c.term_point(b2) for (b2, t2) in c.calls_to('set_cutset') if node_field(c.origin.operand(t2['args'][0], c.term_point(b2)), 'flags') == par and M.is_const(c.origin.operand(t2['args'][1], c.term_point(b2)), True)]
-            r = c.reach(c.after(c.term_point(bb)), avoid=sc)
-            ctx.check(bool(sc) and not any(p in r for p in ret_points(c)), 'R08.2', tag + '/frontier-flag', c, c.loc(bb), 'an admitted node is flagged cut-set on every path (no duplicates)', 'an admitted node is not flagged F_CUTSET')
-            # the closure runs for inexact nodes only, over their inbound arcs, in a bottom-up traversal
-            cm = [(b2, t2) for (b2, t2) in fb.calls_to('call_mut') if isinstance(fb.origin.operand(t2['args'][0], fb.term_point(b2)), tuple) and fb.origin.operand(t2['args'][0], fb.term_point(b2))[1] == c.name]
-            good = bool(cm)
+            r = c.reach(c.after(c.term_point(bb)), avoid=sc, stop=[walk[1]] if (walk and c is fb and walk[1]) else ())
+            ends = ret_points(c) + ([walk[1]] if (walk and c is fb and walk[1]) else [])
+            ctx.check(bool(sc) and not any(p in r for p in ends), 'R08.2', tag + '/frontier-flag', c, c.loc(bb), 'an admitted node is flagged cut-set on every path (no duplicates)', 'an admitted node is not flagged F_CUTSET')
+            # the arcs examined are the inbound arcs of the inexact nodes met in a bottom-up traversal
+            good = walk is not None and walk[1] is not None
             if good:
-                ok3, cut3, _ = M.guarded(fb, [fb.term_point(cm[0][0])], lambda atoms, lit: any(a[0] == 'F' and M.is_call(a[1], 'is_exact') and node_field(a[1][2][0], 'flags') is not None for a in atoms))
-                child = None
-                for (bbk, lab) in cut3:
-                    for a in M.lit_atoms(M.edge_literal(fb, bbk, lab)):
-                        if a[0] == 'F' and M.is_call(a[1], 'is_exact'):
-                            child = node_field(a[1][2][0], 'flags')
-                good = ok3 and _foreach_over(ctx, fb, c, child)
-            ctx.check(good, 'R08.2', tag + '/frontier-covers-inexact-nodes', fb, fb.loc(cm[0][0]) if cm else fb.loc(0), 'every inbound arc of every inexact node is examined',
+                (child, wp) = walk
+                ok3, cut3, _ = M.guarded(fb, [wp], lambda atoms, lit: any(a[0] == 'F' and M.is_call(a[1], 'is_exact') and node_field(a[1][2][0], 'flags') == child for a in atoms))
+                # no inexact node is skipped: from the edge asserting !is_exact(child), avoiding the walk, the next node cannot be reached
+                good = ok3
+            ctx.check(good, 'R08.2', tag + '/frontier-covers-inexact-nodes', fb, fb.loc(wp[0]) if good else fb.loc(0), 'every inbound arc of every inexact node is examined',
                       'the frontier construction does not examine the inbound arcs of each inexact node')
             rev = fb.calls_to('rev')
             ctx.check(bool(rev), 'R08.2', tag + '/frontier-bottom-up', fb, fb.loc(0), 'the frontier is built bottom-up', 'the frontier construction does not traverse layers in reverse')
@@ -1197,12 +1295,26 @@ def r_cutset(ctx):
                     good = lay(sk[2][1], 'from') and isinstance(tk[2][1], tuple) and tk[2][1][0] == 'sub' and lay(tk[2][1][1], 'to') and lay(tk[2][1][2], 'from')
             ctx.check(good, 'R08.2', tag + '/lel-cutset-is-layer-lel', lc, lc.loc(ps[0][0]) if ps else lc.loc(0), 'the LEL cut-set is exactly the node range [from, to) of layer `lel`',
                       'the last-exact-layer cut-set is not nodes[from..to) of the recorded layer')
-            ad = lc.calls_to('NodeFlags::add')
-            good = False
-            for (bb, t) in ad:
-                a = lc.origin.operand(t['args'][1], lc.term_point(bb))
-                if isinstance(a, tuple) and a[0] == 'bin' and a[1] == 'BitOr' and {(a[2][2] or '').split('::')[-1], (a[3][2] or '').split('::')[-1]} == {'F_CUTSET', 'F_ABOVE_CUTSET'}:
-                    good = True
+            # the members get both bits, whatever the spelling: add(F_CUTSET | F_ABOVE_CUTSET) (inlined: flags.0 |= mask), two setters, ...
+            from .flags_rules import bits_always_set
+            consts_ = {k.split('::')[-1]: v['int'] for k, v in ctx.F.consts.items() if 'NodeFlags::F_' in k and 'int' in v}
+            want_ = consts_.get('F_CUTSET', 0) | consts_.get('F_ABOVE_CUTSET', 0)
+            got_ = 0
+            clean_ = True
+            for (pt, d, v, s_) in writes(lc):
+                if M.is_field(d, '0') and node_field(d[1], 'flags') is not None:
+                    r_ = bits_always_set(ctx.F, d, v)
+                    if r_ is None:
+                        clean_ = False
+                    else:
+                        got_ |= r_[0]
+                        clean_ = clean_ and r_[1]
+            for (nm, c_) in (('set_cutset', 'F_CUTSET'), ('set_above_cutset', 'F_ABOVE_CUTSET')):
+                for (bb, t) in lc.calls_to(nm):
+                    a = [lc.origin.operand(x, lc.term_point(bb)) for x in t['args']]
+                    if node_field(a[0], 'flags') is not None and M.is_const(a[1], True):
+                        got_ |= consts_.get(c_, 0)
+            good = want_ != 0 and (got_ & want_) == want_ and clean_ and (got_ & ~want_) == 0
             ctx.check(good, 'R08.2', tag + '/lel-cutset-flags', lc, lc.loc(0), 'LEL cut-set nodes are flagged F_CUTSET | F_ABOVE_CUTSET', 'LEL cut-set nodes are not flagged F_CUTSET | F_ABOVE_CUTSET')
             fcs = ctx.body(adt, '_finalize_cutset')
             ok, cut, bad = M.guarded(fcs, call_points(fcs, '_compute_last_exact_layer_cutset', '_compute_frontier_cutset'), _relaxed_or_exact)
@@ -1218,13 +1330,15 @@ def r_best_nodes(ctx):
         for (fn, fld, what) in (('_best_value', 'best_node', 'value'), ('_best_solution', 'best_node', 'path'), ('_best_exact_value', 'best_exact_node', 'value'), ('_best_exact_solution', 'best_exact_node', 'path')):
             b = ctx.body(adt, fn)
             rt = _ret_term(b)
-            good = M.is_call(rt, 'map') and self_field(rt[2][0], fld)
+            om = opt_map(rt)
+            good = om is not None and self_field(om[0], fld)
             if good:
-                crt = _closure_ret(ctx.F, rt[2][1])
+                crt = om[1]
+                pay = opt_payload(om[0])
                 if what == 'value':
-                    good = crt is not None and node_field(crt, 'value_top') is not None and M.is_param(node_field(crt, 'value_top')[1], index=1)
+                    good = node_field(crt, 'value_top') is not None and node_field(crt, 'value_top') == id0(pay)
                 else:
-                    good = crt is not None and M.is_call(crt, '_best_path') and M.is_param(crt[2][1], index=1)
+                    good = M.is_call(crt, '_best_path') and crt[2][1] == pay
             ctx.check(good, 'R02.5', '%s/%s' % (tag, fn), b, b.loc(0), '%s = %s.map(|id| %s of that node)' % (fn, fld, 'value_top' if what == 'value' else 'best path'),
                       '%s returns %s' % (fn, M.show(rt)[:200]))
         for (tr, fn) in (('best_value', '_best_value'), ('best_solution', '_best_solution'), ('best_exact_value', '_best_exact_value'), ('best_exact_solution', '_best_exact_solution'), ('drain_cutset', '_drain_cutset')):
@@ -1322,19 +1436,12 @@ def r_best_nodes(ctx):
 
 
 def _path_ret(body, blocks, end):
-    """term of the last assignment to _0 on the path"""
-    last = None
-    for (kind, pt, s) in M.path_effects(body, blocks, (0, 0), end):
-        if kind == 'assign' and s['place']['l'] == 0:
-            last = (pt, s)
-        if kind == 'call' and s['dest']['l'] == 0 and not s['dest']['p']:
-            last = (pt, s)
-    if last is None:
+    """term returned on the path (path-sensitive through plain copies)"""
+    has = any((kind == 'assign' and s['place']['l'] == 0) or (kind == 'call' and s['dest']['l'] == 0 and not s['dest']['p'])
+              for (kind, pt, s) in M.path_effects(body, blocks, (0, 0), end))
+    if not has:
         return None
-    (pt, s) = last
-    if 'rv' in s:
-        return body.origin.rvalue(s['rv'], pt)
-    return body.origin.call(s, pt)
+    return M.path_local_term(body, blocks, end, 0)
 
 
 def _has_exact_best_path_table(ctx, tag, hb):
@@ -1365,9 +1472,8 @@ def _has_exact_best_path_table(ctx, tag, hb):
             good = M.is_call(rt, '_has_exact_best_path')
             if good:
                 arg = rt[2][1]
-                good = M.is_call(arg, 'map') and node_field(arg[2][0], 'best') is not None
-                crt = _closure_ret(ctx.F, arg[2][1]) if good else None
-                good = good and crt is not None and M.is_field(crt, 'from', 'Edge')
+                om = opt_map(arg)
+                good = om is not None and node_field(om[0], 'best') is not None and M.is_field(om[1], 'from', 'Edge')
         else:
             want = '?'
             good = False
@@ -1551,6 +1657,9 @@ def r_flags(ctx):
 # ================================================================================================
 # C15 — long arcs in Pooled: un-impacted nodes stay in the pool; depth bookkeeping; layer recording
 # ================================================================================================
+COPY_CALLS = ('Clone::clone', 'to_vec', 'ToOwned::to_owned')   # calls producing an independent copy of a Vec / slice
+
+
 def r_pooled_layers(ctx):
     adt = POOLED
     tag = 'Pooled'
@@ -1666,9 +1775,9 @@ def r_pooled_layers(ctx):
                 for leaf in M.leaves(v_):
                     if leaf == rec or (isinstance(leaf, tuple) and leaf and leaf[0] == 'var' and leaf[2] in rec_locals):
                         bad_.append(nm)
-                    if not (M.is_call(leaf, 'Clone::clone') or (isinstance(leaf, tuple) and leaf and leaf[0] == 'var')):
+                    if not (M.is_call(leaf, *COPY_CALLS) or (isinstance(leaf, tuple) and leaf and leaf[0] == 'var')):
                         bad_.append(nm + '?')
-        cl_ = [(b2, t2) for (b2, t2) in mv.calls_to('Clone::clone') if mv.origin.operand(t2['args'][0], mv.term_point(b2)) == rec or
+        cl_ = [(b2, t2) for (b2, t2) in mv.calls_to(*COPY_CALLS) if mv.origin.operand(t2['args'][0], mv.term_point(b2)) == rec or
                any(isinstance(x, tuple) and x and x[0] == 'var' and x[2] in rec_locals for x in M.walk(mv.origin.operand(t2['args'][0], mv.term_point(b2))))]
         ctx.check(not bad_ and bool(cl_), 'R15.5', 'layer-record-unfiltered', mv, mv.loc(ins[0][0]),
                   'the layer recorded for the bottom-up passes keeps every candidate node; the cache / dominance filters and the squash work on a clone that is handed to the expansion',
